@@ -34,6 +34,8 @@ type Snap struct {
 	Data []byte
 	Seq  int
 	Bad  bool // Open fails (unreadable snapshot)
+	// BadOnce: the next Open fails, later ones succeed (a read error at start-up)
+	BadOnce bool
 }
 
 // Disk is the durable state of one server identity.
@@ -548,6 +550,10 @@ func (s *snapStore) Open(id string) (*raft.SnapshotMeta, io.ReadCloser, error) {
 		if x.Meta.ID == id {
 			if x.Bad {
 				return nil, nil, fmt.Errorf("snapshot %s unreadable", id)
+			}
+			if x.BadOnce {
+				x.BadOnce = false
+				return nil, nil, fmt.Errorf("snapshot %s: read error", id)
 			}
 			m := x.Meta
 			m.Configuration = m.Configuration.Clone()
